@@ -67,7 +67,13 @@ def canonTable (inp : Json) : String → Option String :=
 def goValOf (j : Json) : Except String Xsd.GoVal := do
   let k ← jstr j "k"
   match k with
-  | "f64" => pure (.f64 (← jstr j "canon"))
+  | "f64" => do
+      let w ← match (j.getObjVal? "whole").toOption with
+        | some (.str x) => match x.toInt? with
+            | some i => pure (some i)
+            | none => throw "bad whole"
+        | _ => pure none
+      pure (.f64 (← jstr j "canon") w)
   | "str" => pure (.str (← jstr j "v"))
   | "int" => pure (.int (← jintS (← j.getObjVal? "v")))
   | "uint" => pure (.uint (← jnatS (← j.getObjVal? "v")))
